@@ -12,7 +12,7 @@ set_option linter.unusedVariables false
 `weights <prem|cmc> <cyl dr dz|box dx dy dz> vx vy vz ux uy uz L` → `surv iw` or `none`
 `event <cyl dr dz|box dx dy dz> <shadow> f0 f1 f2 <cosmo> <gqrs|ctw> <sec> <prem|cmc> E | u… | k…`
       → `passes usedU usedK flavor anti kind | vertex dir E y em had surv iw` or `none`
-`list n <loop> <ops…>`  ops: `c` create, `s<int>` set count, `q` query → one reply token per op -/
+`list n <loop> <ops…>`  ops: `c` create (`stop` = StopIteration, `zerodiv` = empty looping list), `s<int>` set count, `q` query → one reply token per op -/
 open PyrexF Proto
 
 structure St where
@@ -73,7 +73,7 @@ def handleList (n : Nat) (loop : Bool) (ops : List String) : String :=
     | op :: r, out =>
       if op == "c" then
         match PyrexD.ListGen.create s with
-        | (s', none) => go s' r ("stop" :: out)
+        | (s', none) => go s' r ((if s.n == 0 && s.loop then "zerodiv" else "stop") :: out)
         | (s', some i) => go s' r (toString i :: out)
       else if op == "q" then go s r (("q" ++ toString (PyrexD.ListGen.count s)) :: out)
       else if op.startsWith "s" then
